@@ -47,7 +47,7 @@ CTL_IDX = {'ISA': 13, 'GS': 6, 'ST': 2, 'SE': 2, 'GE': 2, 'IEA': 2}
 FAULTS = ['ctl_change', 'ctl_dup', 'ctl_blank', 'ctl_nonnum', 'count_off', 'count_nonnum', 'count_empty',
           'count_missing', 'drop_header', 'drop_trailer', 'dup_header', 'dup_trailer', 'swap_env', 'orphan_trailer',
           'truncate', 'hl01_gap', 'hl01_repeat', 'hl02_closed', 'hl02_later', 'hl02_nonnum', 'lx_gap',
-          'body_drop', 'body_dup', 'trailer_ctl_missing', 'body_empty']
+          'body_drop', 'body_dup', 'trailer_ctl_missing', 'body_empty', 'clm_drop']
 
 
 def idxs(segs, pred):
@@ -113,7 +113,12 @@ def apply_fault(segs, kind, rng, pos=None):
                 v = int(s[1]) + abs(d)
             s[1] = str(v)
         elif kind == 'count_nonnum':
-            s[1] = rng.choice(['X', '1A', '-', 'I'])
+            if rng.random() < 0.5 and s[1].isdigit():
+                # not a number in X12 (N0: digits, optional leading minus), although a lenient parser reads the declared count from it
+                v = s[1]
+                s[1] = rng.choice(['+' + v, ' ' + v, v + ' ', v[0] + '_' + v[1:] if len(v) > 1 else '+' + v, '+0' + v])
+            else:
+                s[1] = rng.choice(['X', '1A', '-', 'I'])
         elif kind == 'count_empty':
             s[1] = ''
         elif kind == 'count_missing':
@@ -176,7 +181,7 @@ def apply_fault(segs, kind, rng, pos=None):
         elif kind == 'hl02_later':
             s[2] = str(int(s[1]) + rng.randint(0, 3))
         elif kind == 'hl02_nonnum':
-            s[2] = rng.choice(['X', '1A', ' '])
+            s[2] = rng.choice(['X', '1A', ' ', '+' + s[2], s[2] + '_0'])
         else:
             # a parent that exists but whose subtree is closed: any earlier HL of this set not on the chain
             j = i - 1
@@ -211,6 +216,13 @@ def apply_fault(segs, kind, rng, pos=None):
         if i is None:
             return False
         segs[i] = [segs[i][0]] + rng.choice([[], [''], ['', '']])
+        return True
+    if kind == 'clm_drop':
+        # a claim header is lost: its service lines follow whatever came before (the set header, or the previous claim)
+        i = pick(idxs(segs, lambda i, s: s[0] == 'CLM' and i + 1 < len(segs) and segs[i + 1][0] == 'LX'))
+        if i is None:
+            return False
+        del segs[i]
         return True
     if kind in ('body_drop', 'body_dup'):
         i = pick(idxs(segs, lambda i, s: s[0] not in ENV and s[0] not in ('HL', 'LX', 'CLM')))
